@@ -9,7 +9,7 @@ MANIFEST = dict(
     category="other",
     text="ALL DEPTHS AT ONCE (Verus, no bound): the real to_ring with its helpers (nside_time, first_hash_in_eqr, minus_nside_x_4nside, triangular_number_x4, div2/div4 helpers), cut out of the working tree on every run, is proved to return ring_first(ring) + rank, where ring is the ring of the cell centre and rank its rank by longitude inside the ring (closed forms of the RING scheme), with 0 <= rank < ring_len(ring), result < 12*nside^2, no overflow, and the integer fix-up of polar_cap_ring_index is proved exact for all h < 2^62 given a float estimate within +-1 The real from_ring (with div_by_nside_floor_u8, modulo_nside, depth0_hash_unsafe) is proved to build the cell whose closed-form RING index is its argument, so to_ring(from_ring(r)) == r for ALL depths and all r, which with the range contract makes the two maps inverse bijections of [0, 12*4^depth); the ring intervals are proved to tile that range in ring order (decode_hash's range contract, decode(build(p)) == p and the float accuracy are assumed contracts). In addition, per depth, with ALL cells symbolic (Kani): to_ring is proved to be an order isomorphism onto [0,12*4^d) for the RING order of the cell centres taken from an independent integer geometry (in range, strictly monotone in (ring from the north, x in [0,8)), hence injective, hence bijective); from_ring(to_ring(h)) == h; ring-scheme centre == nested centre of from_ring(r), bit for bit. These are complete proofs for the depths they finish at (order: 0..12, inverse: 0..6, centre: 0..2); the nonlinear ring-start arithmetic defeats SAT beyond, so deeper depths get TIME-BOUNDED REFUTATION SEARCHES with the same obligations (a violation found there is reported with a native replay; finding nothing is labelled inconclusive, never proved). The repaired float-sqrt step (polar_cap_ring_index) has its own contract. Bounded in depth => level 'other', not 'proof'.",
     note="Plane order == (latitude descending, longitude ascending) assumes unproj is monotone (argued). Depths above the stated ones are searched, not proved. CBMC's IEEE sqrt model is trusted for the ring-index contract.",
-    technique="Verus (SMT, z3) function contracts on the mechanically extracted integer core of to_ring / polar_cap_ring_index, unbounded in depth; Kani per-depth full-domain harnesses (CBMC) on the real to_ring/from_ring vs an integer-geometry order; time-bounded CBMC refutation search at high depth",
+    technique="Verus (SMT, z3) function contracts on the mechanically extracted integer core of to_ring / from_ring / polar_cap_ring_index and their helpers, unbounded in depth (round trip by composition of the two contracts); Kani per-depth full-domain harnesses (CBMC) on the real to_ring/from_ring vs an integer-geometry order; time-bounded CBMC refutation search at high depth",
 )
 EXPLANATION = ("Complete per depth where listed as proved_units; searches (coverage.time_bounded_refutation_searches) are budgeted CBMC runs at depths where the proof does not finish: they decide nothing when they time out. "
                "The Verus unit ring_core_verus proves the closed form of to_ring for all depths (no bound) under the assumed contracts listed; the centre agreement remains per-depth Kani proofs / searches; the per-depth Kani units for order and round trip are kept as an independent cross-check with the real codec.")
